@@ -531,18 +531,20 @@ impl Builtins {
                         VM::fcall_impl(f, self.strict, stack, env, import_stack))?;
                     if let &C(List(ref fval, _)) = result.as_ref() {
                         // we expect them to be a list of exactly 2 items.
+                        // What the function returned is at fault: point at it and
+                        // list this map expression as the place it was called from.
                         if fval.len() != 2 {
-                            return Err(Error::new(
+                            return decorate_call!(pos => Err(Error::new(
                                 "Map Functions over tuples must return a list of two items".into(),
                                 result_pos,
-                            ));
+                            )));
                         }
                         let name = match fval[0].as_ref() {
                             &P(Str(ref name)) => name.clone(),
-                            _ => return Err(Error::new(
+                            _ => return decorate_call!(pos => Err(Error::new(
                                 "Map functions over tuples must return a String as the first list item".into(),
                                 result_pos,
-                            )),
+                            ))),
                         };
                         let name_pos = flds_pos_list[counter].0.clone();
                         new_flds_pos_list.push((name_pos, result_pos));
@@ -561,10 +563,10 @@ impl Builtins {
                     if let &P(Str(ref s)) = result.as_ref() {
                         buf.push_str(s);
                     } else {
-                        return Err(Error::new(
+                        return decorate_call!(pos => Err(Error::new(
                             "Map functions over string should return strings".into(),
                             result_pos,
-                        ));
+                        )));
                     }
                 }
                 stack.push((Rc::new(P(Str(buf.into()))), pos));
